@@ -108,7 +108,7 @@ pub fn run(env: &Env) -> Rec {
     let jl = d6.jt_l.iter().next().unwrap_or(0xA872);
     let reps: [u32; 8] = [jl, D, 0x0627, 0x064B, 0x61, 0x094D, 0x200C, 0x200D];
     assert!(d6.jt_d.has(D) && d6.jt_r.has(0x627) && d6.jt_t.has(0x64B) && d6.virama.has(0x94D), "representatives");
-    let plan: Vec<(usize, usize)> = if env.quick() { vec![(8, 6)] } else { vec![(8, 7), (7, 8)] };
+    let plan: Vec<(usize, usize)> = if env.quick() { vec![(8, 7), (7, 8)] } else { vec![(8, 8), (7, 9)] };
     for (k, max_len) in plan {
         let total = util::n_strings(k, max_len);
         let per = 4096usize;
@@ -155,8 +155,73 @@ pub fn run(env: &Env) -> Rec {
         ));
     }
 
+    // (b2) long runs of transparent characters on either side of ZWNJ (k, m up to 70), joining and non-joining ends
+    let tmarks: [u32; 3] = [0x064E, 0x0300, 0x094D];
+    let rb2 = par(71, |k, rec| {
+        for m in 0..=70usize {
+            for (li, left) in [D, 0x0627, 0x61].iter().enumerate() {
+                for right in [D, 0x0627, 0x61] {
+                    let t = tmarks[(k + m + li) % 2];
+                    let mut l: Vec<u32> = vec![*left];
+                    l.extend(std::iter::repeat(t).take(k));
+                    l.push(0x200C);
+                    l.extend(std::iter::repeat(t).take(m));
+                    l.push(right);
+                    let s = label_string(&l).unwrap();
+                    check_rule(env, 0, &l, &s, k + 1, rec, true);
+                    if m % 16 == 0 {
+                        // and without the closing letter: the scan runs off the end
+                        let l2 = &l[..l.len() - 1];
+                        let s2 = label_string(l2).unwrap();
+                        check_rule(env, 0, l2, &s2, k + 1, rec, true);
+                    }
+                }
+            }
+        }
+    });
+    rec.merge(rb2);
+    rec.exhaustive("ZWNJ between runs of k and m transparent marks, k,m in 0..=70, with D / R / non-joining letters at both ends");
+
+    // (b3) long labels: contextual characters and the characters their rules look for at and around
+    // power-of-two byte offsets; same-length variants presented from one reused buffer
+    let n_long = env.n(15_000, 500_000);
+    let per = 200usize;
+    let rb3 = par(n_long.div_ceil(per), |c, rec| {
+        let mut rng = Rng::stream(env.seed, 0x03_C000 + c as u64);
+        let p = env.pools();
+        super::hostile::drive(
+            &mut rng,
+            per,
+            65536,
+            |rng| match rng.below(5) {
+                0 => gen::contextual_label(p, rng),
+                1 => rng.pick(&p.context).to_string(),
+                2 => rng.pick(&p.kana_han).to_string(),
+                3 => {
+                    let v = if rng.chance(1, 2) { &p.arabic_digits } else { &p.ext_arabic_digits };
+                    rng.pick(v).to_string()
+                }
+                _ => String::new(),
+            },
+            |s| {
+                let l: Vec<u32> = s.chars().map(|c| c as u32).collect();
+                let mut done = 0;
+                for (pos, cp) in l.iter().enumerate() {
+                    if let Some(idx) = refmodel::rule_of(*cp) {
+                        check_rule(env, idx, &l, s, pos, rec, true);
+                        done += 1;
+                        if done >= 6 {
+                            break;
+                        }
+                    }
+                }
+            },
+        );
+    });
+    rec.merge(rb3);
+
     // (c) all eight rules at every position of random / constructive / mutated labels
-    let n_rand = env.n(150_000, 5_000_000);
+    let n_rand = env.n(1_500_000, 40_000_000);
     let per = 2000usize;
     let rc = par(n_rand.div_ceil(per), |c, rec| {
         let mut rng = Rng::stream(env.seed, 0x03_8000 + c as u64);
@@ -218,7 +283,7 @@ pub fn run(env: &Env) -> Rec {
     for cp in [0x110000u32, 0x11200C, 0x20200D, u32::MAX, 0x8000_00B7, 0x1_0000 + 0x200C] {
         check_registry(cp, false, &mut rec);
     }
-    for _ in 0..env.n(100_000, 5_000_000) {
+    for _ in 0..env.n(1_000_000, 50_000_000) {
         let cp = 0x110000u32 + (rng.next() % (u32::MAX as u64 - 0x110000 + 1)) as u32;
         check_registry(cp, false, &mut rec);
     }
